@@ -4,6 +4,9 @@
 -/
 import BufrModel.Coder.Regs
 import BufrModel.Gen.PyCoder
+import BufrModel.Lemmas.CoderSrc
+import BufrModel.Lemmas.CoderOpSrc
+set_option linter.unusedSimpArgs false
 namespace Bufr
 open PyGen.coder
 
@@ -27,5 +30,106 @@ theorem C07_src_const_bitmap_states_distinct (a b : BitmapDef) : bitmapDefTag a 
 
 theorem C07_src_const_qa_states_distinct (a b : QaStatus) : qaTag a = qaTag b ↔ a = b := by
   cases a <;> cases b <;> decide
+
+/-! ### the bitmap / back-reference methods of `CoderState` (generated from the source on every check)
+
+  Representation: `Lemmas/CoderSrc.lean` — `Rep φ ps r`: the Python record `ps` stands for the register file `r`. -/
+
+variable {D V : Type}
+
+/-- `mark_back_reference_boundary`: the boundary register becomes the current number of decoded descriptors
+    (what `operatorDescriptor` does for 222000 / 223000 / 224000 / 225000 / 232000 with `s.descs.length`);
+    nothing else changes. -/
+theorem C07_src_mark_back_reference_boundary (φ : D → Elem) (ps : CoderState.Self D V) (r : Regs) (h : Rep φ ps r) :
+    CoderState.mark_back_reference_boundary ps =
+        { ps with back_reference_boundary := (ps.decoded_descriptors.length : Nat) } ∧
+      Rep φ (CoderState.mark_back_reference_boundary ps) { r with backBoundary := ps.decoded_descriptors.length } := by
+  refine ⟨rfl, ?_⟩
+  obtain ⟨hwf, nr, rfl, href⟩ := h
+  refine ⟨?_, nr, ?_, href⟩
+  · simp only [WF, CoderState.mark_back_reference_boundary] at hwf ⊢
+    simp only [Int.ofNat_eq_natCast, Int.natCast_nonneg, and_true]
+    exact ⟨hwf.1, hwf.2.1, hwf.2.2.1, hwf.2.2.2.1, hwf.2.2.2.2.1, hwf.2.2.2.2.2.1, hwf.2.2.2.2.2.2.1,
+      hwf.2.2.2.2.2.2.2.1, hwf.2.2.2.2.2.2.2.2.1⟩
+  · simp [regsOf, CoderState.mark_back_reference_boundary]
+
+example : ∃ (ps : CoderState.Self Nat Nat) (r : Regs), Rep (fun _ => default) ps r :=
+  ⟨_, _, rep_freshOver _ ⟨false, 1, 0, [[]], [[]], [[]], [], [], [], 0, 5, 5, 5, [(1, 1)], [2], 3, ⟨1, 1, 1⟩, 4, 5, 2, some [],
+    some [], 5, true, 7, some [], 3, some []⟩⟩
+
+/-- `cancel_bitmap` (237255 after a bitmap defined for re-use): only `bitmap` is cleared — a register the model
+    does not carry, so the register file represented is unchanged. -/
+theorem C07_src_cancel_bitmap (φ : D → Elem) (ps : CoderState.Self D V) :
+    CoderState.cancel_bitmap ps = { ps with bitmap := none } ∧
+      regsOf φ (CoderState.cancel_bitmap ps) = regsOf φ ps ∧ (WF ps → WF (CoderState.cancel_bitmap ps)) :=
+  ⟨rfl, rfl, fun h => h⟩
+
+/-- `cancel_all_back_references` (235000): the back-referenced descriptors and the bitmapped descriptors are
+    dropped (and `bitmap`), exactly the registers the model's 235 branch clears; the iterator in
+    `next_bitmapped_descriptor` is NOT touched (the model keeps `bmIter` as well). -/
+theorem C07_src_cancel_all_back_references (φ : D → Elem) (ps : CoderState.Self D V) :
+    CoderState.cancel_all_back_references ps =
+        { ps with back_referenced_descriptors := none, bitmap := none, bitmapped_descriptors := none } ∧
+      regsOf φ (CoderState.cancel_all_back_references ps) = { regsOf φ ps with backRefs := none, bitmapped := none } ∧
+      (WF ps → WF (CoderState.cancel_all_back_references ps)) :=
+  ⟨rfl, rfl, fun h => h⟩
+
+/-- `recall_bitmap` (237000): `iter(None)` is a `TypeError` when no bitmap was ever defined (the model: `other`);
+    otherwise the iterator restarts on the bitmapped descriptors (`bmIter := bitmapped`) and the value returned
+    is `bitmap` (discarded by the caller). -/
+theorem C07_src_recall_bitmap (φ : D → Elem) (ps : CoderState.Self D V) :
+    (ps.bitmapped_descriptors = none → CoderState.recall_bitmap ps = .error .typeError) ∧
+    (∀ l, ps.bitmapped_descriptors = some l →
+      CoderState.recall_bitmap ps = .ok ({ ps with next_bitmapped_descriptor := some l }, ps.bitmap) ∧
+      regsOf φ ({ ps with next_bitmapped_descriptor := some l } : CoderState.Self D V) =
+        { regsOf φ ps with bmIter := (regsOf φ ps).bitmapped }) := by
+  refine ⟨fun h => ?_, fun l h => ⟨?_, ?_⟩⟩
+  · simp [CoderState.recall_bitmap, h, Py.iterOpt, bind, Except.bind]
+  · simp [CoderState.recall_bitmap, h, Py.iterOpt, bind, Except.bind, pure, Except.pure]
+  · simp [regsOf, h]
+
+/-- **`add_bitmap_link` is the model's `nextBitmapped` followed by `addLink`** (the step the model performs for a
+    class-33 element under 222000 and for every marker operator).  For every Python record `ps` that stands for the
+    registers of a model state `s`: both fail — the iterator attribute is `None` (`TypeError`: no bitmap defined
+    yet) or exhausted (`StopIteration`), which the model maps to `other`, both accidental exceptions — or both
+    return: the item taken is the same through the representation (`owner = i.toNat`, `e = φ d`), the iterator
+    advances by one item in both (`Rep` again), the Python record gets the dictionary entry
+    `bitmap_links[len(decoded_descriptors)] = i` (the model's `addLink` conses `(descs.length, owner)`), and
+    nothing else changes on either side. -/
+theorem C07_src_add_bitmap_link (φ : D → Elem) (ps : CoderState.Self D V) (s : St) (h : Rep φ ps s.regs) :
+    match CoderState.add_bitmap_link ps, nextBitmapped s with
+    | .ok ps', .ok ((owner, e), s2) =>
+      ∃ i d rest, ps.next_bitmapped_descriptor = some ((i, d) :: rest) ∧ owner = i.toNat ∧ e = φ d ∧
+        ps' = { ps with next_bitmapped_descriptor := some rest,
+                        bitmap_links := Py.dictSetItem ps.bitmap_links (ps.decoded_descriptors.length : Nat) i } ∧
+        Rep φ ps' s2.regs ∧ s2.data = s.data
+    | .error e, .error e' => excClass e = e'
+    | _, _ => False := by
+  obtain ⟨hwf, nr, hr, href⟩ := h
+  have hit : s.regs.bmIter = ps.next_bitmapped_descriptor.map (pairsOf φ) := by rw [hr]; rfl
+  cases hn : ps.next_bitmapped_descriptor with
+  | none =>
+    simp [CoderState.add_bitmap_link, nextBitmapped, hn, hit, Py.callNext, excClass, bind, Except.bind]
+  | some l =>
+    cases l with
+    | nil =>
+      simp [CoderState.add_bitmap_link, nextBitmapped, hn, hit, Py.callNext, excClass, bind, Except.bind, pairsOf]
+    | cons p rest =>
+      obtain ⟨i, d⟩ := p
+      simp only [CoderState.add_bitmap_link, nextBitmapped, hn, hit, Py.callNext, bind, Except.bind, pure, Except.pure,
+        pairsOf, Option.map, List.map]
+      refine ⟨i, d, rest, rfl, rfl, rfl, rfl, ⟨?_, nr, ?_, href⟩, rfl⟩
+      · exact hwf
+      · simp only [St.setRegs]
+        rw [hr]
+        simp [regsOf, pairsOf]
+
+/-- the hypothesis is satisfiable, with a bitmapped descriptor waiting -/
+example : ∃ (ps : CoderState.Self Nat Nat) (s : St), Rep (fun _ => default) ps s.regs ∧
+    ps.next_bitmapped_descriptor = some [(0, 7)] :=
+  ⟨{ freshOver ⟨false, 1, 0, [[]], [[]], [[]], [], [], [], 0, 5, 5, 5, [(1, 1)], [2], 3, ⟨1, 1, 1⟩, 4, 5, 2, some [], some [], 5,
+      true, 7, some [], 3, some []⟩ with next_bitmapped_descriptor := some [(0, 7)] },
+   { regs := { bmIter := some [(0, default)] } }, ⟨by simp [WF, freshOver, bsrOf], [], by simp [regsOf, freshOver, pairsOf, qaOfTag, bitmapDefOfTag,
+      QA_INFO_NA, QA_INFO_WAITING, QA_INFO_PROCESSING, BITMAP_NA, BITMAP_INDICATOR, BITMAP_WAITING_FOR_BIT, BITMAP_BIT_COUNTING], refRel_nil⟩, rfl⟩
 
 end Bufr
